@@ -53,15 +53,41 @@ func c12Order(x *X, dir string, fd *ast.FuncDecl, calledParam int) []string {
 			out = append(out, s)
 		}
 	}
-	x.WalkInlined(dir, fd, func(n ast.Node) bool {
+	// a closure bound to a local name (`lookup := func(…) {…}`) has its effects where it is CALLED, not where it
+	// is written down: its body is skipped at the definition and visited at every call of the name
+	closures := map[string]*ast.FuncLit{}
+	bound := map[*ast.FuncLit]bool{}
+	ast.Inspect(fd.Body, func(n ast.Node) bool {
+		if as, ok := n.(*ast.AssignStmt); ok && len(as.Lhs) == len(as.Rhs) {
+			for i, l := range as.Lhs {
+				id, isIdent := l.(*ast.Ident)
+				lit, isLit := as.Rhs[i].(*ast.FuncLit)
+				if isIdent && isLit {
+					closures[id.Name], bound[lit] = lit, true
+				}
+			}
+		}
+		return true
+	})
+	active := map[string]bool{}
+	var visit func(n ast.Node) bool
+	visit = func(n ast.Node) bool {
 		switch v := n.(type) {
+		case *ast.FuncLit:
+			if bound[v] {
+				return false
+			}
 		case *ast.SelectorExpr:
 			if s, ok := c12Markers[v.Sel.Name]; ok {
 				add(s)
 			}
 		case *ast.CallExpr:
 			if id, ok := v.Fun.(*ast.Ident); ok {
-				if param != "" && id.Name == param {
+				if lit := closures[id.Name]; lit != nil && !active[id.Name] {
+					active[id.Name] = true
+					ast.Inspect(lit.Body, func(m ast.Node) bool { return m == nil || visit(m) })
+					delete(active, id.Name)
+				} else if param != "" && id.Name == param {
 					add("upstream")
 				} else if s, ok := c12Markers[id.Name]; ok {
 					add(s)
@@ -69,7 +95,8 @@ func c12Order(x *X, dir string, fd *ast.FuncDecl, calledParam int) []string {
 			}
 		}
 		return true
-	})
+	}
+	x.WalkInlined(dir, fd, visit)
 	return out
 }
 
@@ -398,12 +425,119 @@ func init() {
 				})
 			}
 		}
+		// --- the request path only READS the rule map: the functions of package route which store into
+		// `<x>.accessRules` (assignment to the field or to an element of it), the functions from which such a store
+		// can be reached through same-package calls (by name; calls through an imported package or through a field
+		// of a value are other packages' methods), and which of the gate's entry points are among them
+		writers := map[string]bool{}
+		callees := map[string]map[string]bool{}
+		for _, f := range x.files("route") {
+			imports := map[string]bool{}
+			for _, im := range f.Imports {
+				if im.Name != nil {
+					imports[im.Name.Name] = true
+				} else if p, err := strconv.Unquote(im.Path.Value); err == nil {
+					for i := len(p) - 1; i >= 0; i-- {
+						if p[i] == '/' {
+							p = p[i+1:]
+							break
+						}
+					}
+					imports[p] = true
+				}
+			}
+			for _, d := range f.Decls {
+				fd, ok := d.(*ast.FuncDecl)
+				if !ok || fd.Body == nil {
+					continue
+				}
+				name := fd.Name.Name
+				if callees[name] == nil {
+					callees[name] = map[string]bool{}
+				}
+				ast.Inspect(fd.Body, func(n ast.Node) bool {
+					switch v := n.(type) {
+					case *ast.AssignStmt:
+						for _, l := range v.Lhs {
+							if c12IsRuleMapRef(l) {
+								writers[name] = true
+							}
+						}
+					case *ast.IncDecStmt:
+						if c12IsRuleMapRef(v.X) {
+							writers[name] = true
+						}
+					case *ast.CallExpr:
+						switch fn := v.Fun.(type) {
+						case *ast.Ident:
+							callees[name][fn.Name] = true
+							if (fn.Name == "delete" || fn.Name == "clear") && len(v.Args) > 0 && c12IsRuleMapRef(v.Args[0]) {
+								writers[name] = true
+							}
+						case *ast.SelectorExpr:
+							if id, ok := fn.X.(*ast.Ident); ok && !imports[id.Name] {
+								callees[name][fn.Sel.Name] = true
+							}
+						}
+					}
+					return true
+				})
+			}
+		}
+		reach := map[string]bool{}
+		for w := range writers {
+			reach[w] = true
+		}
+		for changed := true; changed; {
+			changed = false
+			for fn, cs := range callees {
+				if reach[fn] {
+					continue
+				}
+				for c := range cs {
+					if reach[c] {
+						reach[fn], changed = true, true
+						break
+					}
+				}
+			}
+		}
+		var onPath []string
+		for _, ep := range []string{"AccessDeniedHTTP", "AccessDeniedTCP", "AccessDeniedAddr", "denyByIP", "Authorized"} {
+			if x.anyFuncDecl("route", ep) == nil {
+				x.fail("route.%s not found", ep)
+			}
+			if reach[ep] {
+				onPath = append(onPath, ep)
+			}
+		}
+		x.defSortedStrList("ruleMapWriters", c12Keys(writers))
+		x.defSortedStrList("requestPathReachesRuleMapStore", onPath)
+		x.defBool("addTargetReachesRuleMapStore", reach["addTarget"])
+
 		x.defNat("authSchemeTypes", uint64(schemes))
 		x.defSortedStrList("authSchemeFieldTypes", c12Keys(fieldTypes))
 		x.defSortedStrList("authorizedCallees", c12Keys(calls))
 		x.defNat("authorizedWrites", uint64(writes))
 		return nil
 	})
+}
+
+// c12IsRuleMapRef: `<x>.accessRules` or an element `<x>.accessRules[…]` of it.
+func c12IsRuleMapRef(e ast.Expr) bool {
+	for {
+		switch v := e.(type) {
+		case *ast.ParenExpr:
+			e = v.X
+			continue
+		case *ast.IndexExpr:
+			e = v.X
+			continue
+		case *ast.SelectorExpr:
+			return v.Sel.Name == "accessRules"
+		}
+		return false
+	}
 }
 
 func c12Keys(m map[string]bool) []string {
